@@ -103,6 +103,14 @@ CHECKS = {
         technique="abstract interpretation over GF(2)-affine bit forms of three sibling implementations on one symbolic input (cross-checking siblings); affine path constraints for well-formedness",
         note="trusted: model of the five KaitaiStream read primitives; Burst constructors stubbed in the from_hytera_ipsc rule (C01); well-formedness = fixed header, replicated colour nibble, zero pad octets, byte-palindromic codes (checked)",
         ref="DESIGN.md §3 C13"),
+    "C15": dict(
+        text="Static: (1) the LRRP token tables against the type dispatch of read_document and write_part (handled by both or rejected by both, single-octet ids, attribute ids defined); (2) loop-progress rules for the four reader loops; "
+             "(3) abstract interpretation of the real as_bytes -> from_bytes -> as_bytes chain on document shapes — the captured documents of the tests, their siblings with an inline constant table, 2-3 documents per buffer, and documents assembled through get_token "
+             "for every implemented token x attribute choice, with every content octet (opaque ids, coordinates, info-time, uint8, constant table; up to 200-octet values and 340-octet bodies) symbolic: token ids, values, attributes and bytes are restored for all content values at once, "
+             "and the reader never branches on content; variable-length numbers are constant-evaluated at boundary values (127/128/16384, 63.5/64.5, negative fractions) only; (4) one process history per order (parse request, parse report, look every token up twice): get_token keeps returning the table entry and the class-level tables are unchanged.",
+        technique="table / dispatch agreement over the syntax tree; abstract interpretation (GF(2)-affine bit forms) of writer -> reader -> writer on constant-evaluated and API-assembled shapes; per-path class-state comparison",
+        note="trusted: token SEQUENCES are those of the captures and the API-assembled documents (not all sequences of 0..12 tokens); numeric token values at the listed boundary constants (all 2^32 values are C14, not claimed); a token's required attribute is always supplied",
+        ref="DESIGN.md §3 C15"),
     "C16": dict(
         text="Static, shape-seeded (captures of the TMS/ARS tests): per shape all scalar/byte fields symbolic — the 7-bit TMS sequence number and ARS refresh time as bit atoms so that the one/two-octet optional header and reserved-folding enums are decided exactly for all 128 values — "
              "and the real writer/reader chain analysed abstractly: fields restored, identical re-encoding, leading length == octets that follow, len() agrees; per-octet symbolic wire probe (decode-then-encode); non-ASCII identifier variants for the ARS len-value fields.",
